@@ -184,6 +184,22 @@ int main (int argc, char **argv)
 				account (key, scen_input, &in, 0) ;
 				mv_free (&mm) ;
 				}
+			/* C2. systematic chunk mutations: every marker in the first 1500 bytes x 16 mutations of its size field / id / truncation, read and read-write */
+			if (s && (maj == SF_FORMAT_WAV || maj == SF_FORMAT_WAVEX || maj == SF_FORMAT_RF64 || maj == SF_FORMAT_AIFF || maj == SF_FORMAT_CAF || maj == SF_FORMAT_W64 || maj == SF_FORMAT_SVX || maj == SF_FORMAT_AVR || maj == SF_FORMAT_VOC || maj == SF_FORMAT_MAT5))
+			{	int mi, mk ; CORP cb ; cb.d = rich.d ; cb.len = (long) rich.len ; cb.format = format ; cb.ch = c ; cb.meta = 2 ;
+				for (mi = 0 ; mi < 60 ; mi++) for (mk = 0 ; mk < MUTATE_MARKER_KINDS ; mk++)
+				{	INPUT in ; MEMF mm ; char desc [200] ; int md ;
+					if (!vh_case ("%s ch=%d marker %d mutation %d", vh_fname (format), c, mi, mk)) continue ;
+					if (!mutate_marker (&mm, &cb, mi, mk, 1500, desc, sizeof (desc))) continue ;
+					for (md = 0 ; md < 2 ; md++)
+					{	in.d = mm.d ; in.len = (long) mm.len ; in.route = 0 ; in.mode = md ? SFM_RDWR : SFM_READ ;
+						snprintf (key, sizeof (key), "C16|leak|marker-mutation|%s|%s", vh_fname (format), md ? "rdwr" : "read") ;
+						vh_distinct (vh_fnv (vh_fnv (0, mm.d, (size_t) mm.len), &md, 4) ^ 0xC2) ;
+						account (key, scen_input, &in, 0) ;
+						}
+					mv_free (&mm) ;
+					}
+				}
 			/* D. single-shot and persistent I/O faults while opening/reading, and while writing */
 			if (s && c == 1)
 			{	int kind ; long at ;
